@@ -374,6 +374,15 @@ fn base_cases(tier: Tier) -> Vec<Case> {
             push(&mut v, 2, vec![vec![sub, B::Sub(1, 1), B::HoldThrough(0, kind), B::Pub(1, 41), B::DropSub(1), B::Pub(1, 42)]], None);
         }
     }
+    // one subscriber leaves and another one joins between two publications (the table has the
+    // same size before and after): the first gets nothing more, the newcomer gets the next one
+    for p in pubs(42) {
+        if matches!(p, B::PubCtx(..)) {
+            continue;
+        }
+        push(&mut v, 3, vec![vec![B::Sub(0, 1), B::Sub(1, 1), B::Pub(1, 41), B::Unsub(0, 1), B::Sub(2, 1), p, B::Pub(1, 43)]], if q { Some(3) } else { None });
+        push(&mut v, 3, vec![vec![B::Sub(0, 1), B::Sub(1, 1), B::Pub(1, 41), B::DropSub(0), B::Sub(2, 1), p]], if q { Some(3) } else { None });
+    }
     // subscribing again is no second subscription - also when somebody else subscribed in between
     for again in [B::Sub(0, 1), B::SubCtx(0, 1)] {
         push(&mut v, 2, vec![vec![B::Sub(0, 1), B::Sub(1, 1), again, B::Pub(1, 41), B::Pub(1, 42)]], if q { Some(3) } else { None });
